@@ -1,0 +1,157 @@
+//! Read-only verification hooks (cargo feature `verif-hooks`).
+//!
+//! Everything in this module is additive: accessors that expose the private
+//! state of a table (control bytes, counters, per-bucket element) and thin
+//! `pub` wrappers around private pure functions and the `Group` primitives.
+//! Nothing here is used by the crate itself.
+#![allow(missing_docs, clippy::pedantic, clippy::all)]
+
+use super::{
+    bucket_mask_to_capacity as real_bucket_mask_to_capacity,
+    capacity_to_buckets as real_capacity_to_buckets, h1 as real_h1, Allocator, ProbeSeq, RawTable,
+    TableLayout,
+};
+use crate::alloc::vec::Vec;
+use crate::control::verif::tag_byte;
+use crate::control::{Group, Tag};
+use crate::{HashMap, HashSet, HashTable};
+
+/// Width in bytes of the control-byte group scanner selected at compile time.
+pub const GROUP_WIDTH: usize = Group::WIDTH;
+
+/// Snapshot of the private state of a table.
+#[derive(Clone, Debug, PartialEq, Eq)]
+pub struct TableDump {
+    pub group_width: usize,
+    pub bucket_mask: usize,
+    pub items: usize,
+    pub growth_left: usize,
+    /// True when the table is the unallocated static singleton.
+    pub is_singleton: bool,
+    /// All control bytes that exist: `buckets + WIDTH` for an allocated
+    /// table, `WIDTH` for the static singleton.
+    pub ctrl: Vec<u8>,
+    /// Address of control byte 0 (identifies the allocation).
+    pub ctrl_addr: usize,
+}
+
+impl<T, A: Allocator> RawTable<T, A> {
+    pub fn verif_dump(&self) -> TableDump {
+        let inner = &self.table;
+        let is_singleton = inner.is_empty_singleton();
+        let n = if is_singleton {
+            Group::WIDTH
+        } else {
+            inner.num_ctrl_bytes()
+        };
+        let mut ctrl = Vec::with_capacity(n);
+        for i in 0..n {
+            // SAFETY: `n` control bytes are readable (see above).
+            ctrl.push(tag_byte(unsafe { *inner.ctrl.as_ptr().add(i).cast::<Tag>() }));
+        }
+        TableDump {
+            group_width: Group::WIDTH,
+            bucket_mask: inner.bucket_mask,
+            items: inner.items,
+            growth_left: inner.growth_left,
+            is_singleton,
+            ctrl,
+            ctrl_addr: inner.ctrl.as_ptr() as usize,
+        }
+    }
+
+    /// The element stored in bucket `index`, if that bucket's control byte
+    /// says it is full.
+    pub fn verif_bucket(&self, index: usize) -> Option<&T> {
+        if self.table.is_empty_singleton() || index >= self.buckets() {
+            return None;
+        }
+        // SAFETY: index is in range and the table is allocated.
+        unsafe {
+            if self.is_bucket_full(index) {
+                Some(self.bucket(index).as_ref())
+            } else {
+                None
+            }
+        }
+    }
+}
+
+impl<K, V, S, A: Allocator> HashMap<K, V, S, A> {
+    pub fn verif_dump(&self) -> TableDump {
+        self.table.verif_dump()
+    }
+    pub fn verif_bucket(&self, index: usize) -> Option<(&K, &V)> {
+        self.table.verif_bucket(index).map(|kv| (&kv.0, &kv.1))
+    }
+}
+
+impl<T, S, A: Allocator> HashSet<T, S, A> {
+    pub fn verif_dump(&self) -> TableDump {
+        self.map.table.verif_dump()
+    }
+    pub fn verif_bucket(&self, index: usize) -> Option<&T> {
+        self.map.table.verif_bucket(index).map(|kv| &kv.0)
+    }
+}
+
+impl<T, A: Allocator> HashTable<T, A> {
+    pub fn verif_dump(&self) -> TableDump {
+        self.raw.verif_dump()
+    }
+    pub fn verif_bucket(&self, index: usize) -> Option<&T> {
+        self.raw.verif_bucket(index)
+    }
+}
+
+// ---------------------------------------------------------------------------
+// Pure functions (C17)
+// ---------------------------------------------------------------------------
+
+pub fn capacity_to_buckets(cap: usize, size: usize, ctrl_align: usize) -> Option<usize> {
+    real_capacity_to_buckets(cap, TableLayout { size, ctrl_align })
+}
+
+pub fn bucket_mask_to_capacity(bucket_mask: usize) -> usize {
+    real_bucket_mask_to_capacity(bucket_mask)
+}
+
+/// `(size, ctrl_align)` of `TableLayout::new::<T>()`.
+pub fn table_layout_of<T>() -> (usize, usize) {
+    let l = TableLayout::new::<T>();
+    (l.size, l.ctrl_align)
+}
+
+/// `(layout size, layout align, ctrl_offset)` of the real
+/// `TableLayout::calculate_layout_for`.
+pub fn calculate_layout_for(
+    size: usize,
+    ctrl_align: usize,
+    buckets: usize,
+) -> Option<(usize, usize, usize)> {
+    TableLayout { size, ctrl_align }
+        .calculate_layout_for(buckets)
+        .map(|(l, off)| (l.size(), l.align(), off))
+}
+
+pub fn h1(hash: u64) -> usize {
+    real_h1(hash)
+}
+
+pub fn tag_full(hash: u64) -> u8 {
+    tag_byte(Tag::full(hash))
+}
+
+/// One step of the real probe sequence: `(pos, stride) -> (pos', stride')`.
+pub fn probe_step(pos: usize, stride: usize, bucket_mask: usize) -> (usize, usize) {
+    let mut p = ProbeSeq { pos, stride };
+    p.move_next(bucket_mask);
+    (p.pos, p.stride)
+}
+
+/// Start position of the probe sequence of `hash` in a table with `bucket_mask`.
+pub fn probe_start(hash: u64, bucket_mask: usize) -> usize {
+    real_h1(hash) & bucket_mask
+}
+
+pub use crate::control::verif::*;
